@@ -6,7 +6,7 @@ import tempfile
 from hypothesis import strategies as st
 
 from pbt import files
-from pbt.core import call, draw_tz
+from pbt.core import call, draw_tz, workdir
 
 PROP = "C12"
 TECHNIQUE = "bounded exhaustive enumeration of all short encodings (state-machine transition coverage) + Hypothesis-sampled long forecasts vs. the generating list (round trip through a reference encoder); negative cases with decreasing ids must be rejected"
@@ -67,7 +67,7 @@ def as_path(case, path):
 def check_case(ctx, case):
     cats = build(case)
     n = len(cats)
-    with tempfile.TemporaryDirectory() as d:
+    with workdir() as d:
         path = os.path.join(d, "forecast.csv")
         files.write_catalog_forecast(path, cats, case["enc"], header=case["header"], frac=case.get("timefmt", "auto"),
                                      eol=case.get("eol", "\r\n"), final_newline=case.get("final_newline", True))
